@@ -4,7 +4,13 @@ import (
 	"fmt"
 	"reflect"
 	"sort"
+	"strings"
 	"time"
+
+	"github.com/Oudwins/zog/conf"
+	"github.com/Oudwins/zog/i18n"
+	"github.com/Oudwins/zog/i18n/en"
+	"github.com/Oudwins/zog/i18n/es"
 
 	z "github.com/Oudwins/zog"
 	p "github.com/Oudwins/zog/internals"
@@ -19,6 +25,9 @@ type Case struct {
 	Dest   D // initial destination (Parse: usually zero + sentinels; Validate: the value)
 	Input  V // Parse only
 	Tag    string
+	// Fmt: "" (global default formatter) | "exec:en" | "exec:es" (WithIssueFormatter) |
+	// "i18n:-" | "i18n:<lang>" (i18n installed globally, WithCtxValue("lang", <lang>))
+	Fmt string
 }
 
 type Iss struct {
@@ -136,8 +145,28 @@ func RunTwice(c *Case) (first, second *Result, inputChanged string) {
 	return
 }
 
+func (c *Case) execOpts() (opts []z.ExecOption, restore func()) {
+	restore = func() {}
+	switch {
+	case c.Fmt == "exec:en":
+		opts = append(opts, z.WithIssueFormatter(conf.NewDefaultFormatter(en.Map)))
+	case c.Fmt == "exec:es":
+		opts = append(opts, z.WithIssueFormatter(conf.NewDefaultFormatter(es.Map)))
+	case strings.HasPrefix(c.Fmt, "i18n:"):
+		old := conf.IssueFormatter
+		i18n.SetLanguagesErrsMap(map[string]i18n.LangMap{"en": en.Map, "es": es.Map}, "en")
+		restore = func() { conf.IssueFormatter = old }
+		if l := strings.TrimPrefix(c.Fmt, "i18n:"); l != "-" {
+			opts = append(opts, z.WithCtxValue("lang", l))
+		}
+	}
+	return
+}
+
 func runOn(schema z.ZogSchema, c *Case, rec *Recorder, data any) (res *Result) {
 	res = &Result{}
+	opts, restore := c.execOpts()
+	defer restore()
 	p.VerifFieldHook = func(path, key string) {
 		if _, ok := rec.Order[path]; !ok {
 			rec.OrderPaths = append(rec.OrderPaths, path)
@@ -156,81 +185,81 @@ func runOn(schema z.ZogSchema, c *Case, rec *Recorder, data any) (res *Result) {
 	switch s := schema.(type) {
 	case z.ComplexZogSchema:
 		if c.Mode == "p" {
-			m := s.Parse(data, dest.Interface())
+			m := s.Parse(data, dest.Interface(), opts...)
 			im = mapToMap(m)
 			res.DistinctObjs, res.FirstAliased = identityFacts(m)
 		} else {
 			var m z.ZogIssueMap
 			switch cs := s.(type) {
 			case *z.StructSchema:
-				m = cs.Validate(dest.Interface())
+				m = cs.Validate(dest.Interface(), opts...)
 			case *z.SliceSchema:
-				m = cs.Validate(dest.Interface())
+				m = cs.Validate(dest.Interface(), opts...)
 			case *z.PointerSchema:
-				m = cs.Validate(dest.Interface())
+				m = cs.Validate(dest.Interface(), opts...)
 			}
 			im = mapToMap(m)
 			res.DistinctObjs, res.FirstAliased = identityFacts(m)
 		}
 	case *z.StringSchema[string]:
 		if c.Mode == "p" {
-			im = listToMap(s.Parse(data, dest.Interface().(*string)))
+			im = listToMap(s.Parse(data, dest.Interface().(*string), opts...))
 		} else {
-			im = listToMap(s.Validate(dest.Interface().(*string)))
+			im = listToMap(s.Validate(dest.Interface().(*string), opts...))
 		}
 	case *z.NumberSchema[int]:
 		if c.Mode == "p" {
-			im = listToMap(s.Parse(data, dest.Interface().(*int)))
+			im = listToMap(s.Parse(data, dest.Interface().(*int), opts...))
 		} else {
-			im = listToMap(s.Validate(dest.Interface().(*int)))
+			im = listToMap(s.Validate(dest.Interface().(*int), opts...))
 		}
 	case *z.NumberSchema[int32]:
 		if c.Mode == "p" {
-			im = listToMap(s.Parse(data, dest.Interface().(*int32)))
+			im = listToMap(s.Parse(data, dest.Interface().(*int32), opts...))
 		} else {
-			im = listToMap(s.Validate(dest.Interface().(*int32)))
+			im = listToMap(s.Validate(dest.Interface().(*int32), opts...))
 		}
 	case *z.NumberSchema[int64]:
 		if c.Mode == "p" {
-			im = listToMap(s.Parse(data, dest.Interface().(*int64)))
+			im = listToMap(s.Parse(data, dest.Interface().(*int64), opts...))
 		} else {
-			im = listToMap(s.Validate(dest.Interface().(*int64)))
+			im = listToMap(s.Validate(dest.Interface().(*int64), opts...))
 		}
 	case *z.NumberSchema[float64]:
 		if c.Mode == "p" {
-			im = listToMap(s.Parse(data, dest.Interface().(*float64)))
+			im = listToMap(s.Parse(data, dest.Interface().(*float64), opts...))
 		} else {
-			im = listToMap(s.Validate(dest.Interface().(*float64)))
+			im = listToMap(s.Validate(dest.Interface().(*float64), opts...))
 		}
 	case *z.NumberSchema[float32]:
 		if c.Mode == "p" {
-			im = listToMap(s.Parse(data, dest.Interface().(*float32)))
+			im = listToMap(s.Parse(data, dest.Interface().(*float32), opts...))
 		} else {
-			im = listToMap(s.Validate(dest.Interface().(*float32)))
+			im = listToMap(s.Validate(dest.Interface().(*float32), opts...))
 		}
 	case *z.BoolSchema[bool]:
 		if c.Mode == "p" {
-			im = listToMap(s.Parse(data, dest.Interface().(*bool)))
+			im = listToMap(s.Parse(data, dest.Interface().(*bool), opts...))
 		} else {
-			im = listToMap(s.Validate(dest.Interface().(*bool)))
+			im = listToMap(s.Validate(dest.Interface().(*bool), opts...))
 		}
 	case *z.TimeSchema:
 		if c.Mode == "p" {
-			im = listToMap(s.Parse(data, dest.Interface().(*time.Time)))
+			im = listToMap(s.Parse(data, dest.Interface().(*time.Time), opts...))
 		} else {
-			im = listToMap(s.Validate(dest.Interface().(*time.Time)))
+			im = listToMap(s.Validate(dest.Interface().(*time.Time), opts...))
 		}
 	case *z.Custom[int]:
 		if c.Mode == "p" {
-			im = listToMap(s.Parse(data, dest.Interface().(*int)))
+			im = listToMap(s.Parse(data, dest.Interface().(*int), opts...))
 		} else {
-			im = listToMap(s.Validate(dest.Interface().(*int)))
+			im = listToMap(s.Validate(dest.Interface().(*int), opts...))
 		}
 	case *z.Custom[string]:
 		if c.Mode == "p" {
-			im = listToMap(s.Parse(data, dest.Interface().(*string)))
+			im = listToMap(s.Parse(data, dest.Interface().(*string), opts...))
 		} else {
-			im = listToMap(s.Validate(dest.Interface().(*string)))
+			im = listToMap(s.Validate(dest.Interface().(*string), opts...))
 		}
 	default:
 		panic(fmt.Sprintf("Run: unsupported top-level schema %T", schema))
@@ -291,7 +320,18 @@ func (c *Case) Line(order map[string][]string) string {
 	if c.Mode == "p" {
 		input = c.Input.Sx()
 	}
-	return sx.T("engine", sx.I(int64(c.ID)), sx.A(c.Mode), schema, c.Dest.Sx(), input, tag, sx.T("order", ord...), ext.Sx()).String()
+	items := []*sx.Node{sx.I(int64(c.ID)), sx.A(c.Mode), schema, c.Dest.Sx(), input, tag, sx.T("order", ord...), ext.Sx()}
+	switch {
+	case c.Fmt == "exec:en":
+		items = append(items, sx.T("fmt", sx.A("exec"), sx.A("en")))
+	case c.Fmt == "exec:es":
+		items = append(items, sx.T("fmt", sx.A("exec"), sx.A("es")))
+	case c.Fmt == "i18n:-":
+		items = append(items, sx.T("fmt", sx.A("i18n"), sx.A("-")))
+	case strings.HasPrefix(c.Fmt, "i18n:"):
+		items = append(items, sx.T("fmt", sx.A("i18n"), sx.S(strings.TrimPrefix(c.Fmt, "i18n:"))))
+	}
+	return sx.T("engine", items...).String()
 }
 
 // noteInputDisplays records fmt %v (String coercer), strconv.ParseFloat and time.Parse results for
